@@ -166,16 +166,17 @@ func (a *Analysis) computePurity() {
 			case *ast.SelectorExpr:
 				if s := info.Selections[x]; s != nil && s.Kind() == types.FieldVal {
 					fv := s.Obj().(*types.Var).Origin()
+					fname := a.Prog.fieldRole(fv, x.Sel.Name)
 					switch a.Prog.FieldOwner[fv] {
 					case "Context":
-						if x.Sel.Name != "Config" {
-							dreads[fn]["ctx."+x.Sel.Name] = true
+						if fname != "Config" {
+							dreads[fn]["ctx."+fname] = true
 						}
 					case "Config":
-						dreads[fn]["cfg."+x.Sel.Name] = true
+						dreads[fn]["cfg."+fname] = true
 					case "DBFT":
-						if x.Sel.Name != "Context" && x.Sel.Name != "Config" {
-							dreads[fn]["dbft."+x.Sel.Name] = true
+						if fname != "Context" && fname != "Config" {
+							dreads[fn]["dbft."+fname] = true
 						}
 					}
 				}
